@@ -83,11 +83,19 @@ def fixture() -> Dict[str, Any]:
         sh('openssl', 'req', '-new', '-subj', '/CN=' + cn, '-key', P(name + '-key.pem'), '-out', P(name + '.csr'))
         with open(P(name + '.ext'), 'w') as f:
             f.write('subjectAltName=' + san + '\n')
-        sh('openssl', 'x509', '-req', '-in', P(name + '.csr'), '-CA', P('oca-cert.pem'), '-CAkey', P('oca-key.pem'), '-CAcreateserial',
+        sh('openssl', 'x509', '-req', '-in', P(name + '.csr'), '-CA', P(signer + '-cert.pem'), '-CAkey', P(signer + '-key.pem'), '-CAcreateserial',
            '-extfile', P(name + '.ext'), '-out', P(name + '-cert.pem'), *extra)
     all_san = ','.join(['DNS:' + n for n in GOOD_NAMES] + ['IP:127.0.0.1', 'IP:::1'])
     leaf('good', 'good.test', all_san, 'oca', ['-days', '30'])
     leaf('selfsigned', 'good.test', all_san, None, [])
+    # a CA that is in the PLATFORM trust store of this process (SSL_CERT_FILE) but not in the proxy's --ca-file: an origin it
+    # signed is correctly named and valid, and still not to be trusted by a proxy told to trust `--ca-file` only
+    sh('openssl', 'ecparam', '-genkey', '-name', 'prime256v1', '-noout', '-out', P('sysca-key.pem'))
+    sh('openssl', 'req', '-new', '-x509', '-sha256', '-days', '30', '-subj', '/CN=vf platform CA', '-key', P('sysca-key.pem'), '-out', P('sysca-cert.pem'),
+       '-addext', 'basicConstraints=critical,CA:TRUE')
+    leaf('osca', 'good.test', all_san, 'sysca', ['-days', '30'])
+    os.environ['SSL_CERT_FILE'] = P('sysca-cert.pem')
+    os.environ.pop('SSL_CERT_DIR', None)
     leaf('wrongname', 'other.test', 'DNS:other.test', 'oca', ['-days', '30'])
     # an expired certificate: `openssl x509 -not_before/-not_after` needs OpenSSL >= 3.4, `openssl ca -startdate/-enddate` works
     # with every version (the sandbox has 3.0 in /usr/bin and 3.5 in another PATH entry)
@@ -504,7 +512,7 @@ def cleanup() -> None:
 
 @st.composite
 def cases(draw: Any) -> Dict[str, Any]:
-    origin = draw(st.sampled_from(['good', 'good', 'good', 'selfsigned', 'wrongname', 'expired']))
+    origin = draw(st.sampled_from(['good', 'good', 'good', 'selfsigned', 'wrongname', 'expired', 'osca']))
     host = draw(st.sampled_from(['good.test', 'a.good.test', 'localhost', 'optout.good.test', '127.0.0.1', '[::1]', LONG_NAME]))
     req = draw(G.request_spec(form='origin', host=host.encode(), framings=('none', 'cl', 'chunked'), max_body=300, max_headers=5,
                               versions=(b'HTTP/1.1',), plain_chunked=True))
